@@ -148,14 +148,19 @@ def _lookup_helper(fn: ast.FunctionDef) -> tuple[int, int, str] | None:
         return None
     first = body[0]
     # for k, v in table.items(): if isinstance(op, k): return v
-    if isinstance(first, ast.For) and isinstance(first.target, ast.Tuple) and len(first.target.elts) == 2 and isinstance(first.iter, ast.Call) \
-            and isinstance(first.iter.func, ast.Attribute) and first.iter.func.attr == "items" and norm(first.iter.func.value) in params and len(first.body) == 1:
+    it_src = None
+    if isinstance(first, ast.For) and isinstance(first.target, ast.Tuple) and len(first.target.elts) == 2 and len(first.body) == 1:
+        if isinstance(first.iter, ast.Call) and isinstance(first.iter.func, ast.Attribute) and first.iter.func.attr == "items" and norm(first.iter.func.value) in params:
+            it_src = norm(first.iter.func.value)       # a dict table
+        elif isinstance(first.iter, ast.Name) and first.iter.id in params:
+            it_src = first.iter.id                      # a sequence of (class, value) pairs
+    if it_src is not None:
         k, v = norm(first.target.elts[0]), norm(first.target.elts[1])
         t = first.body[0]
         if isinstance(t, ast.If) and not t.orelse and len(t.body) == 1 and isinstance(t.body[0], ast.Return) and norm(t.body[0].value) == v \
                 and isinstance(t.test, ast.Call) and norm(t.test.func) == "isinstance" and len(t.test.args) == 2 and norm(t.test.args[1]) == k \
                 and norm(t.test.args[0]) in params:
-            return params.index(norm(first.iter.func.value)), params.index(norm(t.test.args[0])), classify_body(body[1:])
+            return params.index(it_src), params.index(norm(t.test.args[0])), classify_body(body[1:])
     # return table[type(op)]  /  try: return table[type(op)] except KeyError: raise ..
     for s in body:
         for n in ast.walk(s):
@@ -222,6 +227,8 @@ def operator_table(mod, fn: ast.FunctionDef):
         if tbl is not None and isinstance(mod.assigns.get(tbl), ast.Dict):
             d = mod.assigns[tbl]
             return {norm(k).split(".")[-1]: norm(v) for k, v in zip(d.keys, d.values)}, default, n
+        if tbl is not None and isinstance(mod.assigns.get(tbl), (ast.Tuple, ast.List)) and all(isinstance(e, (ast.Tuple, ast.List)) and len(e.elts) == 2 for e in mod.assigns[tbl].elts):
+            return {norm(e.elts[0]).split(".")[-1]: norm(e.elts[1]) for e in mod.assigns[tbl].elts}, default, n
     # (b) isinstance chain
     for n in ast.walk(fn):
         if isinstance(n, ast.If) and isinstance_kinds(n.test):
